@@ -24,6 +24,12 @@ def replay_kvs_generic(inputs, obl):
         [('set', 'x', 'a' * 40), ('set', 'y', 'b' * 40), ('get', 'x'), ('set', 'z', 'c' * 40), ('get', 'y'), ('get', 'x'), ('get', 'z')],
         [('set', 'big', 'q' * 500)],
         [('set', 'k', 'small'), ('set', 'k', 'q' * 500), ('get', 'k'), ('set', 'k', 'tiny'), ('get', 'k'), ('set', 'o', 1), ('get', 'o')],
+        # keys are file names: a key that looks like another key's temporary / backup file is a key of its own
+        [('set', 'prices.tmp', 'draft'), ('set', 'prices', 'final'), ('get', 'prices.tmp'), ('get', 'prices'), ('unload', 'prices.tmp'), ('get', 'prices.tmp'),
+         ('reopen',), ('get', 'prices.tmp'), ('set', 'eu/p.tmp', 1), ('set', 'eu/p', 2), ('get', 'eu/p.tmp'), ('set', 'x.bak', 3), ('set', 'x', 4), ('get', 'x.bak'),
+         ('set', 'y~', 5), ('set', 'y', 6), ('get', 'y~'), ('set', '.z.swp', 7), ('set', 'z', 8), ('get', '.z.swp')],
+        # never-set keys that cannot name a file: below an existing flat key, or longer than a file name may be
+        [('set', 'prices', 1), ('get', 'prices/2024'), ('get', 'prices/2024/q1'), ('get', 'n' * 300), ('reopen',), ('get', 'prices/2024'), ('get', 'prices')],
     ]
     # overwrite sweeps: the new value's size passes through 'exactly fits' / 'one byte over' for every small limit
     for L in range(1, 75, 1):
